@@ -14,7 +14,8 @@ shipped configuration (TidalPy/defaultc.py) gives the magnitudes the ranges are 
           [-40, 40] (backwards always in units of the shortest half-life so nothing overflows); scale factor
           k 1e-3..1e3; `fixed`: rate 1e-14..1e-8 W/kg, half-life 0.1..1e5 or 0 (documented "no decay").
   cool    dT = 0 or 1e-14..1e4 K (the code treats dT <= float_eps = 2.2e-16 K as "no contrast"; such values
-          are not generated), pairs dT2 = dT1*(1+10^u), eta 1..1e28 Pa s with pairs eta2 = eta1*(1+10^u),
+          are not generated), pairs dT2 = dT1*(1+10^u), u in [-6,1] or one ulp, eta 1..1e28 Pa s with pairs
+          eta2 = eta1*(1+10^u),
           k 0.1..100, kappa 1e-8..1e-4, alpha_T 1e-6..1e-3, thickness 1..1e7 m incl. the MIN_THICKNESS=50 m
           edge, g 0.01..100, rho 100..2e4, convection_alpha 0.05..5, beta 0..0.5 (incl. 0, 1/4, 1/3), Ra_c 100..1e4.
   visc    2..5 temperatures 50..4500 K (sorted; steps T*(10^u) or one ulp), P 0 | 1e5..1e11 Pa,
@@ -38,7 +39,7 @@ exactly one argument)
   radio/halflife   single isotope: q(t + tau) == q(t)/2; bound HALF_ULP*eps*(4 + 0.7(|u|+1) + 0.7(|t1|+|t2|+|ref|)/tau):
                    the second term is the rounding of gamma*(t-ref), the third the rounding of the generated
                    times themselves relative to one half-life (analytic, like C17's exponent-literal term).
-  radio/mass       q(k m) == k q(m)                                            (LIN_TOL = 16 eps)
+  radio/mass       q(k m) == k q(m)                                            (LIN_TOL = 32 eps)
   radio/conc       q(k c) == k q(c) (all), q(c_j -> k c_j) == q + (k-1) q_j    (LIN_TOL)
   radio/ref        q(t_ref) == fsum(f c q) * mass                              (LIN_TOL * n)
   radio/fixed_no_decay   half-life 0 is documented as "no decay": q == mass*rate
@@ -53,10 +54,11 @@ exactly one argument)
   melt/henning_mono      eta non-increasing along the sorted melt fractions (SLACK)
   melt/off         returns the pre-melt values unchanged.
 
-Calibration on the unchanged tree (seeds 1-3, 90 000 cases): worst radio/additive 1.3 eps, radio/halflife 0.9 of
-the bound at HALF_ULP = 1 (bound uses HALF_ULP = 16), radio/mass|conc|ref <= 2.6 eps (tolerance 16 eps), no monotone
-pair ever inverted by more than 2.3e-13 relative (slack 1e-12); a wrong coefficient moves the radio clauses by
->= 1e-3 relative, the monotone ones by the pair ratio (median 1e-3).
+Calibration on the unchanged tree (module-level STATS, 24 000 cases over three seeds): worst error/tolerance ratio
+radio/additive 0.03 (1.9 eps of 64), radio/halflife 0.011 of the analytic bound, radio/mass|conc 0.15 at 16 eps =
+2.5 eps (tolerance then doubled to 32 eps), radio/reference 0.03; no cooling or Henning pair was ever inverted at
+all, viscosity pairs were inverted by at most 3.2e-16 relative (slack 1e-12). A wrong coefficient moves the radio
+clauses by >= 1e-3 relative and the monotone ones by the pair ratio (median step 1e-3), i.e. >= 1e9 x the slack.
 
 Findings on the pinned tree (see known_findings.d/C19.json)
   KF-C19-fixed-halflife-zero   `fixed(..., average_half_life=0)` raises ZeroDivisionError although the docstring
@@ -136,15 +138,24 @@ def _mods():
 
 
 # ---- strategies --------------------------------------------------------------------------------------------
+# Every sub-strategy is built once (module level) and the dependent quantities are computed in a `.map` builder
+# from flat raw draws: constructing strategies inside @composite bodies cost 5-9 ms per case.
 
 def logu(lo, hi):
     return st.floats(math.log10(lo), math.log10(hi)).map(lambda x: min(hi, max(lo, 10.0 ** x)))
 
 
-def _step():
-    """Relative step of a pair: mostly 1e-6..10, sometimes exactly one ulp (None)."""
-    return st.one_of(st.floats(-6.0, 1.0).map(lambda u: 10.0 ** u), st.floats(-6.0, 1.0).map(lambda u: 10.0 ** u),
-                     st.floats(-6.0, 1.0).map(lambda u: 10.0 ** u), st.just(0.0))
+def weighted(*pairs):
+    """one_of with integer weights (one_of drops repeated identical branches, so every repeat gets its own wrapper)."""
+    out = []
+    for strat, w in pairs:
+        out.append(strat)
+        out.extend(strat.map(lambda x: x) for _ in range(w - 1))
+    return st.one_of(*out)
+
+
+STEP = weighted((st.floats(-6.0, 1.0).map(lambda u: 10.0 ** u), 4), (st.just(0.0), 1))   # relative pair step; 0.0 = one ulp
+BOOL = st.booleans()
 
 
 def _bump(x, rel):
@@ -157,50 +168,65 @@ def _bump(x, rel):
 
 REF_TIME = st.one_of(st.just(0.0), st.just(4600.0), st.floats(-1.0e4, 1.0e4))
 U_LIST = st.lists(st.one_of(st.floats(-40.0, 40.0), st.just(0.0), st.just(1.0)), min_size=1, max_size=5)
+MASS = logu(1e10, 1e27)
+KFAC = logu(1e-3, 1e3)
+TAU = logu(0.1, 1e5)
+ISO = st.tuples(logu(1e-4, 1.0), logu(1e-12, 1e-3), TAU, logu(1e-8, 1e-1)).map(list)
+DT = logu(1e-14, 1e4)
+DT_BIG = logu(1e-3, 1e4)
+ETA = logu(1.0, 1e28)
+TEMP = logu(50.0, 4500.0)
+PRESSURE = weighted((st.just(0.0), 1), (logu(1e5, 1e11), 2))
+ACT_VOL = st.one_of(st.just(0.0), logu(1e-7, 2e-5))
+ACT_E = logu(4e4, 7e5)
+ETA_REF = logu(1e-4, 1e25)
+UNIT = st.floats(0.0, 1.0)
+PHI = weighted((UNIT, 2), (st.sampled_from(PHI_TAGS), 1))
 
 
 def _s_radio_isotope():
-    iso = st.tuples(logu(1e-4, 1.0), logu(1e-12, 1e-3), logu(0.1, 1e5), logu(1e-8, 1e-1)).map(list)
     return st.fixed_dictionaries({
-        'family': st.just('radio_isotope'), 'array': st.booleans(), 'mass': logu(1e10, 1e27), 'ref_time': REF_TIME,
-        'isotopes': st.lists(iso, min_size=1, max_size=6), 'u': U_LIST, 'unit': st.sampled_from(['min', 'max']),
-        'k': logu(1e-3, 1e3), 'j': st.integers(0, 5)})
+        'family': st.just('radio_isotope'), 'array': BOOL, 'mass': MASS, 'ref_time': REF_TIME,
+        'isotopes': st.lists(ISO, min_size=1, max_size=6), 'u': U_LIST, 'unit': st.sampled_from(['min', 'max']),
+        'k': KFAC, 'j': st.integers(0, 5)})
 
 
 def _s_radio_fixed():
     return st.fixed_dictionaries({
-        'family': st.just('radio_fixed'), 'array': st.booleans(), 'mass': logu(1e10, 1e27), 'ref_time': REF_TIME,
-        'rate': logu(1e-14, 1e-8),
-        'tau': st.one_of(logu(0.1, 1e5), logu(0.1, 1e5), logu(0.1, 1e5), logu(0.1, 1e5), logu(0.1, 1e5), st.just(0.0)),
-        'u': U_LIST, 'k': logu(1e-3, 1e3)})
+        'family': st.just('radio_fixed'), 'array': BOOL, 'mass': MASS, 'ref_time': REF_TIME,
+        'rate': logu(1e-14, 1e-8), 'tau': weighted((TAU, 7), (st.just(0.0), 1)), 'u': U_LIST, 'k': KFAC})
 
 
-@st.composite
-def _s_cool(draw):
-    dT1 = draw(st.one_of(st.just(0.0), logu(1e-14, 1e4), logu(1e-14, 1e4), logu(1e-3, 1e4), logu(1e-3, 1e4)))
-    if dT1 == 0.0:
-        dT2 = draw(logu(1e-14, 1e4))
-    else:
-        dT2 = _bump(dT1, draw(_step()))
-    eta1 = draw(logu(1.0, 1e28))
-    eta2 = _bump(eta1, draw(_step()))
-    L = draw(st.one_of(st.sampled_from([50.0, math.nextafter(50.0, math.inf), math.nextafter(50.0, 0.0), 1.0, 49.0, 51.0]),
-                       logu(1.0, 1e7), logu(1.0, 1e7), logu(1e2, 1e7), logu(1e3, 1e7)))
-    beta = draw(st.one_of(st.sampled_from([0.0, 0.25, 1.0 / 3.0, 0.3333333333333333, 0.5]), st.floats(0.0, 0.5)))
-    extras = draw(st.lists(st.tuples(st.one_of(st.just(0.0), logu(1e-14, 1e4)), logu(1.0, 1e28)).map(list), max_size=3))
-    return {'family': 'cool', 'array': draw(st.booleans()), 'dT1': dT1, 'dT2': dT2, 'eta1': eta1, 'eta2': eta2,
-            'k': draw(logu(0.1, 100.0)), 'kappa': draw(logu(1e-8, 1e-4)), 'alphaT': draw(logu(1e-6, 1e-3)), 'L': L,
-            'g': draw(logu(0.01, 100.0)), 'rho': draw(logu(100.0, 2e4)), 'alpha': draw(logu(0.05, 5.0)), 'beta': beta,
-            'Rac': draw(logu(100.0, 1e4)), 'extras': extras}
+def _build_cool(r):
+    dT1 = r.pop('dT1')
+    dT2 = r.pop('dT2_abs') if dT1 == 0.0 else _bump(dT1, r.pop('dT_step'))
+    r.pop('dT2_abs', None)
+    r.pop('dT_step', None)
+    eta1 = r.pop('eta1')
+    out = {'family': 'cool', 'array': r.pop('array'), 'dT1': dT1, 'dT2': dT2, 'eta1': eta1,
+           'eta2': _bump(eta1, r.pop('eta_step'))}
+    out.update(r)
+    return out
 
 
-@st.composite
-def _temps(draw, lo=50.0, hi=4500.0):
-    n = draw(st.integers(2, 5))
-    t = draw(logu(lo, hi))
+def _s_cool():
+    return st.fixed_dictionaries({
+        'array': BOOL, 'dT1': weighted((st.just(0.0), 1), (DT, 2), (DT_BIG, 3)), 'dT2_abs': DT, 'dT_step': STEP,
+        'eta1': ETA, 'eta_step': STEP,
+        'k': logu(0.1, 100.0), 'kappa': logu(1e-8, 1e-4), 'alphaT': logu(1e-6, 1e-3),
+        'L': weighted((st.sampled_from([50.0, math.nextafter(50.0, math.inf), math.nextafter(50.0, 0.0), 1.0, 49.0, 51.0]), 1),
+                      (logu(1.0, 1e7), 2), (logu(1e2, 1e7), 1), (logu(1e3, 1e7), 2)),
+        'g': logu(0.01, 100.0), 'rho': logu(100.0, 2e4), 'alpha': logu(0.05, 5.0),
+        'beta': st.one_of(st.sampled_from([0.0, 0.25, 1.0 / 3.0, 0.3333333333333333, 0.5]), st.floats(0.0, 0.5)),
+        'Rac': logu(100.0, 1e4),
+        'extras': st.lists(st.tuples(st.one_of(st.just(0.0), DT), ETA).map(list), max_size=3)}).map(_build_cool)
+
+
+def _build_temps(r, lo=50.0, hi=4500.0):
+    t = r['t0']
     out = [t]
-    for _ in range(n - 1):
-        t2 = _bump(t, draw(_step()))
+    for stp in r['steps'][:r['n'] - 1]:
+        t2 = _bump(t, stp)
         if t2 > hi:
             break
         out.append(t2)
@@ -210,75 +236,68 @@ def _temps(draw, lo=50.0, hi=4500.0):
     return out
 
 
-PRESSURE = st.one_of(st.just(0.0), logu(1e5, 1e11))
-ACT_VOL = st.one_of(st.just(0.0), logu(1e-7, 2e-5))
+TEMPS = st.fixed_dictionaries({'n': st.integers(2, 5), 't0': TEMP,
+                               'steps': st.lists(STEP, min_size=4, max_size=4)}).map(_build_temps)
 
 
-@st.composite
-def _s_visc_arrhenius(draw):
-    return {'family': 'visc_arrhenius', 'array': draw(st.booleans()), 'temps': draw(_temps()), 'P': draw(PRESSURE),
-            'coeff': draw(logu(1e-20, 1e10)), 'addT': draw(st.booleans()), 'stress': draw(logu(1e-2, 1e8)),
-            'stress_expo': draw(st.floats(1.0, 5.0)), 'grain': draw(logu(1e-6, 0.1)), 'grain_expo': draw(st.floats(0.0, 3.0)),
-            'E': draw(logu(4e4, 7e5)), 'V': draw(ACT_VOL)}
+def _s_visc_arrhenius():
+    return st.fixed_dictionaries({
+        'family': st.just('visc_arrhenius'), 'array': BOOL, 'temps': TEMPS, 'P': PRESSURE, 'coeff': logu(1e-20, 1e10),
+        'addT': BOOL, 'stress': logu(1e-2, 1e8), 'stress_expo': st.floats(1.0, 5.0), 'grain': logu(1e-6, 0.1),
+        'grain_expo': st.floats(0.0, 3.0), 'E': ACT_E, 'V': ACT_VOL})
 
 
-@st.composite
-def _s_visc_reference(draw):
-    return {'family': 'visc_reference', 'array': draw(st.booleans()), 'temps': draw(_temps()), 'P': draw(PRESSURE),
-            'eta_ref': draw(logu(1e-4, 1e25)), 'T_ref': draw(logu(50.0, 4500.0)),
-            'E': draw(st.one_of(logu(4e4, 7e5), logu(4e4, 7e5), logu(1e3, 7e5), st.sampled_from([0.0, 6.64e-20]))),
-            'V': draw(ACT_VOL)}
+def _s_visc_reference():
+    return st.fixed_dictionaries({
+        'family': st.just('visc_reference'), 'array': BOOL, 'temps': TEMPS, 'P': PRESSURE, 'eta_ref': ETA_REF, 'T_ref': TEMP,
+        'E': weighted((ACT_E, 3), (logu(1e3, 7e5), 1), (st.sampled_from([0.0, 6.64e-20]), 1)), 'V': ACT_VOL})
 
 
-@st.composite
-def _s_visc_constant(draw):
-    return {'family': 'visc_constant', 'array': draw(st.booleans()), 'temps': draw(_temps()), 'P': draw(PRESSURE),
-            'eta_ref': draw(logu(1e-4, 1e25))}
+def _s_visc_constant():
+    return st.fixed_dictionaries({'family': st.just('visc_constant'), 'array': BOOL, 'temps': TEMPS, 'P': PRESSURE,
+                                  'eta_ref': ETA_REF})
 
 
-PHI = st.one_of(st.floats(0.0, 1.0), st.floats(0.0, 1.0), st.sampled_from(PHI_TAGS))
+def _build_henning(r):
+    crit = r['crit']
+    r['width'] = min(r['width'], 0.95 - crit)
+    r['eta_pre'] = r['eta_liq'] * 10.0 ** r.pop('eta_decades')
+    r['liquidus'] = r['solidus'] + r.pop('melt_range')
+    r['shear_falloff'] = min(r['shear_falloff'], 400.0 / crit)
+    return r
 
 
-@st.composite
-def _s_melt_henning(draw):
-    crit = draw(st.floats(0.05, 0.8))
-    width = min(draw(st.floats(0.001, 0.15)), 0.95 - crit)
-    eta_liq = draw(logu(1e-3, 1e4))
-    eta_pre = eta_liq * 10.0 ** draw(st.one_of(st.floats(0.0, 25.0), st.floats(5.0, 25.0), st.just(0.0)))
-    solidus = draw(st.floats(150.0, 3000.0))
-    liquidus = solidus + draw(st.floats(1.0, 1500.0))
-    return {'family': 'melt_henning', 'array': draw(st.booleans()),
-            'phis': draw(st.lists(PHI, min_size=2, max_size=6)),
-            'T_mode': draw(st.sampled_from(['linked', 'linked', 'free'])), 'T_free': draw(st.floats(0.5, 1.5)),
-            'eta_pre': eta_pre, 'eta_liq': eta_liq, 'mu_pre': draw(logu(1e7, 1e12)), 'mu_liq': draw(logu(1e-8, 1e2)),
-            'solidus': solidus, 'liquidus': liquidus, 'crit': crit, 'width': width,
-            'visc_slope_1': draw(st.floats(0.0, 40.0)), 'visc_falloff': draw(st.floats(0.0, 700.0)),
-            'shear_p1_over_solidus': draw(st.floats(0.0, 40.0)), 'shear_p2': draw(st.floats(0.0, 40.0)),
-            'shear_falloff': min(draw(st.floats(0.0, 1000.0)), 400.0 / crit)}
+def _s_melt_henning():
+    return st.fixed_dictionaries({
+        'family': st.just('melt_henning'), 'array': BOOL, 'phis': st.lists(PHI, min_size=2, max_size=6),
+        'T_mode': st.sampled_from(['linked', 'linked', 'free']), 'T_free': st.floats(0.5, 1.5),
+        'eta_liq': logu(1e-3, 1e4), 'eta_decades': weighted((st.floats(0.0, 25.0), 2), (st.floats(5.0, 25.0), 3), (st.just(0.0), 1)),
+        'mu_pre': logu(1e7, 1e12), 'mu_liq': logu(1e-8, 1e2), 'solidus': st.floats(150.0, 3000.0),
+        'melt_range': st.floats(1.0, 1500.0), 'crit': st.floats(0.05, 0.8), 'width': st.floats(0.001, 0.15),
+        'visc_slope_1': st.floats(0.0, 40.0), 'visc_falloff': st.floats(0.0, 700.0),
+        'shear_p1_over_solidus': st.floats(0.0, 40.0), 'shear_p2': st.floats(0.0, 40.0),
+        'shear_falloff': st.floats(0.0, 1000.0)}).map(_build_henning)
 
 
-@st.composite
-def _s_melt_spohn(draw):
-    pts = draw(st.lists(st.tuples(st.floats(0.0, 1.0), logu(350.0, 5000.0)).map(list), min_size=1, max_size=5))
-    return {'family': 'melt_spohn', 'array': draw(st.booleans()), 'pts': pts, 'eta_liq': draw(logu(1e-3, 1e6)),
-            'mu_liq': draw(logu(1e-8, 1e2)), 'visc_slope': draw(st.floats(13500.0, 32400.0)),
-            'visc_phase': draw(st.floats(0.0, 3.0)), 'shear_slope': draw(st.floats(41000.0, 98400.0)),
-            'shear_phase': draw(st.floats(30.0, 50.0))}
+def _s_melt_spohn():
+    return st.fixed_dictionaries({
+        'family': st.just('melt_spohn'), 'array': BOOL,
+        'pts': st.lists(st.tuples(UNIT, logu(350.0, 5000.0)).map(list), min_size=1, max_size=5),
+        'eta_liq': logu(1e-3, 1e6), 'mu_liq': logu(1e-8, 1e2), 'visc_slope': st.floats(13500.0, 32400.0),
+        'visc_phase': st.floats(0.0, 3.0), 'shear_slope': st.floats(41000.0, 98400.0), 'shear_phase': st.floats(30.0, 50.0)})
 
 
-@st.composite
-def _s_melt_off(draw):
-    return {'family': 'melt_off', 'array': draw(st.booleans()),
-            'phis': draw(st.lists(st.floats(0.0, 1.0), min_size=1, max_size=5)),
-            'eta_pre': draw(logu(1e-3, 1e29)), 'mu_pre': draw(logu(1e-8, 1e12))}
+def _s_melt_off():
+    return st.fixed_dictionaries({'family': st.just('melt_off'), 'array': BOOL,
+                                  'phis': st.lists(UNIT, min_size=1, max_size=5),
+                                  'eta_pre': logu(1e-3, 1e29), 'mu_pre': logu(1e-8, 1e12)})
 
 
 def strategy(tier):
-    return st.one_of(_s_radio_isotope(), _s_radio_isotope(), _s_radio_isotope(), _s_radio_fixed(),
-                     _s_cool(), _s_cool(), _s_cool(), _s_cool(),
-                     _s_visc_arrhenius(), _s_visc_arrhenius(), _s_visc_reference(), _s_visc_reference(), _s_visc_constant(),
-                     _s_melt_henning(), _s_melt_henning(), _s_melt_henning(), _s_melt_henning(), _s_melt_spohn(),
-                     _s_melt_spohn(), _s_melt_off())
+    ri, rf, co, va, vr, vc, mh, ms, mo = (_s_radio_isotope(), _s_radio_fixed(), _s_cool(), _s_visc_arrhenius(),
+                                          _s_visc_reference(), _s_visc_constant(), _s_melt_henning(), _s_melt_spohn(),
+                                          _s_melt_off())
+    return weighted((ri, 3), (rf, 1), (co, 4), (va, 3), (vr, 2), (vc, 1), (mh, 4), (ms, 1), (mo, 1))
 
 
 def fixed_cases(tier):
